@@ -68,9 +68,10 @@ func serializeAndCheck(source string, t *tboc.Cell, r *cell.Cell, wit map[string
 		}
 		out[o] = b
 		w["boc"] = mon.HexTrunc(b, 1500)
-		// tongo parses its own output
+		// tongo parses its own output (from a private copy of the bytes, see below)
+		bc := append([]byte(nil), b...)
 		var cs []*tboc.Cell
-		p = mon.Guard(func() { cs, err = tboc.DeserializeBoc(b) })
+		p = mon.Guard(func() { cs, err = tboc.DeserializeBoc(bc) })
 		if p != nil || err != nil || len(cs) != 1 {
 			w["err"] = fmt.Sprint(err, p)
 			R.Violation("error@DeserializeBoc(own output)/"+source, w)
@@ -85,6 +86,29 @@ func serializeAndCheck(source string, t *tboc.Cell, r *cell.Cell, wit map[string
 			w["got"], w["want"] = mon.Hex(h), mon.Hex(want[:])
 			R.Violation("roundtrip-hash@"+source, w)
 			continue
+		}
+		// the parsed cells are values of their own: parsing leaves the input bytes alone, and what the
+		// caller does with its buffer afterwards does not reach the cells
+		if !parsedCellsOwnTheirData("own-output/"+source, bc, b, cs, []*cell.Cell{r}, w) {
+			continue
+		}
+		// structurally equal input, same bytes: the parsed copy (half of the time after reads that moved
+		// the cursors of some of its cells) serialises to exactly the bytes it was parsed from
+		if nDistinct <= reserialiseLimit() {
+			touched := "untouched"
+			if trng := nextTouchRng(); trng.Bool() {
+				touchCells(trng, cs[0])
+				touched = "after-reads"
+			}
+			var b2 []byte
+			p = mon.Guard(func() { b2, err = tboc.SerializeBoc(cs[0], o.idx, o.crc, o.cache, 0) })
+			R.Eval("")
+			R.Seen("reserialised", touched)
+			if p != nil || err != nil || !bytes.Equal(b2, b) {
+				w["err"], w["reserialised"] = fmt.Sprint(err, p), mon.HexTrunc(b2, 1500)
+				R.Violation("reserialise-differs@"+source+"/"+touched, w)
+				continue
+			}
 		}
 		// the strict reference reader accepts it and reads the same DAG; every header field is verified there
 		rroots, all, hdr, rerr := rboc.Read(b)
@@ -106,6 +130,8 @@ func serializeAndCheck(source string, t *tboc.Cell, r *cell.Cell, wit map[string
 			R.Violation("header-flags@"+source, w)
 		}
 		R.Seen("header_shapes", fmt.Sprintf("ref%d/off%d/%s", hdr.RefSize, hdr.OffSize, o))
+		// the next option serialises the same tree after some of its cells have been read from
+		touchCells(nextTouchRng(), t)
 	}
 	return out
 }
@@ -187,6 +213,8 @@ func sectionInMemory() {
 			if c, err := tboc.DeserializeSingleRootBoc(b0); err != nil || bridge.Diff(c, root) != "" {
 				R.Violation("wrapper-differs@DeserializeSingleRootBoc", wit)
 			}
+			moreWrappers(t, root, rng, outs, wit)
+			warmHasher(t, t2, rng, outs, wit)
 		}
 	}
 }
@@ -284,7 +312,20 @@ func sectionForeign() {
 			}
 			roots = append(roots, extra)
 		}
+		interiorRoot := false
+		if nroots > 1 && rng.Chance(1, 3) {
+			// a root that is also an inner cell of another root
+			var pool []*cell.Cell
+			cell.Walk(base, func(c *cell.Cell) { pool = append(pool, c) })
+			if c := mon.Pick(rng, pool); c.Hash() != base.Hash() {
+				roots[len(roots)-1] = c
+				interiorRoot = true
+			}
+		}
 		wo, desc := randomWriterOptions(rng, roots)
+		if interiorRoot {
+			desc += "/inner-cell-as-root"
+		}
 		if wo.Order != nil && wo.Magic != rboc.MagicGeneric {
 			wo.Order = nil
 		}
@@ -305,7 +346,8 @@ func sectionForeign() {
 		}
 		wit := map[string]any{"case": i, "variant": desc, "roots": nroots, "boc": mon.HexTrunc(raw, 3000)}
 		var ts []*tboc.Cell
-		p := mon.Guard(func() { ts, err = tboc.DeserializeBoc(raw) })
+		rawc := append([]byte(nil), raw...)
+		p := mon.Guard(func() { ts, err = tboc.DeserializeBoc(rawc) })
 		R.Eval("foreign/" + desc + "/" + mon.Hex(hs(roots[0].Hash())[:6]))
 		R.Seen("foreign_variants", desc)
 		if p != nil {
@@ -344,6 +386,11 @@ func sectionForeign() {
 		if !okAll {
 			continue
 		}
+		if !parsedCellsOwnTheirData("foreign/"+fam, rawc, raw, ts, roots, wit) {
+			continue
+		}
+		jk := rng.Intn(len(ts))
+		jsonRoundTrip("parsed-foreign", ts[jk], roots[jk], wit)
 		if i < 3 {
 			R.Sample(map[string]any{"kind": "foreign BOC", "variant": desc, "roots": nroots, "bytes": len(raw)})
 		}
@@ -494,13 +541,14 @@ func main() {
 		tier = os.Args[1]
 	}
 	R = mon.Start("C01", tier)
-	R.Rule = "abstract cell DAGs (chains, wide trees, diamond ladders, random sharing; ordinary and all exotic types) are (1) built in memory and serialised with all 8 option combinations, (2) written by the reference writer with a random header variant (3 magics, index, CRC, cache bits, with-hashes cells, random topological order, non-minimal widths, 1-4 roots) and parsed by tongo, then re-serialised, (3) taken from the repository's real blocks/proofs; each output is parsed by tongo and by the strict reference reader and compared with the abstract DAG and the reference hashes; non-trivial = a serialisation or parse that was compared; distinct = distinct (source, root hash, options/variant)"
+	R.Rule = "abstract cell DAGs (chains, wide trees, diamond ladders, random sharing; ordinary and all exotic types) are (1) built in memory and serialised with all 8 option combinations, (2) written by the reference writer with a random header variant (3 magics, index, CRC, cache bits, with-hashes cells, random topological order, non-minimal widths, 1-4 roots) and parsed by tongo, then re-serialised, (3) taken from the repository's real blocks/proofs; added after the audit: the smallest bags (empty cell, 1 bit, full cell with 4 refs, repeated refs) built and written by the reference writer with every forced ref/offset width, the input buffer overwritten after parsing (cells must not alias it), every parsed copy re-serialised to the same bytes (half of them after reads moved cursors) and the source tree read from between options, all string/base64/JSON/Must wrappers, a pre-warmed Hasher shared over serialisations, an inner cell listed as a root; each output is parsed by tongo and by the strict reference reader and compared with the abstract DAG and the reference hashes; non-trivial = a serialisation or parse that was compared; distinct = distinct (source, root hash, options/variant)"
 	R.Assume("reference writer/reader (harness/ref/boc) and hasher (harness/ref/cell) are correct; pinned by parsing the real files and the Merkle equations they contain")
 	R.Assume("has_cache_bits without has_idx is accepted by the reference reader (the TL-B scheme allows it, the C++ node does not); absent-cell counts other than 0 are not generated")
 	if _, _, err := realdata.SelfCheck(mon.RepoRoot(), false); err != nil {
 		R.HarnessError("reference model failed its self-check: %v", err)
 		os.Exit(R.Finish())
 	}
+	sectionTiny()
 	sectionInMemory()
 	sectionBoundaries()
 	sectionDepth()
